@@ -51,16 +51,3 @@ impl RequestCancellation {
 impl Span {
     #[verifier::external_body] pub fn model_new() -> (r: Span) { unimplemented!() }
 }
-pub struct NoActiveSpan;
-impl trace::Context {
-    /// `trace::Context::try_from(&Span)`: OpenTelemetry bridge -- unconstrained result (A-otel)
-    #[verifier::external_body]
-    pub fn try_from(span: &Span) -> (r: Result<trace::Context, NoActiveSpan>) { unimplemented!() }
-    /// `trace::Context::new_child`: same trace id and sampling decision, fresh span id
-    /// (proved on the real trace::Context::new_child in Verus unit trace_ctx)
-    #[verifier::external_body]
-    pub fn new_child(&self) -> (r: trace::Context)
-        ensures r.trace_id == self.trace_id, r.sampled == self.sampled
-    { unimplemented!() }
-}
-
